@@ -408,7 +408,8 @@ class World:
         if tot is None:
             tot = [sum(c[i] for c in per) for i in range(10)]
         out = [b"cpu  " + b" ".join(b"%d" % v for v in tot[:n])]
-        for i, c in enumerate(per):
+        ids = getattr(self, "online_cpu_ids", None) or range(len(per))      # hot-unplugged CPUs leave holes in the numbering
+        for i, c in zip(ids, per):
             out.append(b"cpu%d " % i + b" ".join(b"%d" % v for v in c[:n]))
         out.append(b"intr %d 1 2 3" % self.intr)
         out.append(b"ctxt %d" % self.ctxt)
